@@ -471,6 +471,9 @@ func Main(spec Spec) {
 			}
 		}
 		spec.Run(c)
+		if Siblings > 0 {
+			c.Count("sibling_machines_built", Siblings)
+		}
 		writeRec(c.Rec, out)
 		os.Exit(0)
 	case "replay":
